@@ -18,6 +18,10 @@
 
 package main
 
+// Abstracted wherever it is called; any other function without a contract is a helper and
+// is executed in place at its call (DESIGN.md 12.15).
+//@ opaque cmd/thermal-writer.procArgs
+
 //@ func logConfig
 //@   mode trusted
 
